@@ -27,6 +27,14 @@ def _r14_1(ctx):
 _r14_1.__name__ = 'r14_1'
 
 
+def _r11_9(ctx):
+    import props.c11 as c11
+    c11.r11_9(ctx)
+
+
+_r11_9.__name__ = 'r11_9'
+
+
 def run(ctx):
     import engine
-    engine.run_rules(ctx, [dt.r05_1, dt.r05_2, dt.r05_3, dt.r05_4, dt.r05_6, dt.r05_7, dt.r02_1, dt.r02_3, dt.r03_2, dt.r03_3, dt.r02_6, dt.r02_7, ras.r01_10, dt.r06_3, ras.r10_1, _r14_1, dt.r05_8])
+    engine.run_rules(ctx, [dt.r05_1, dt.r05_2, dt.r05_3, dt.r05_4, dt.r05_6, dt.r05_7, dt.r02_1, dt.r02_3, dt.r03_2, dt.r03_3, dt.r02_6, dt.r02_7, ras.r01_10, dt.r06_3, ras.r10_1, _r14_1, dt.r05_8, _r11_9])
